@@ -267,6 +267,11 @@ def run(P, R, tier):
     from . import c01, c07
     V, softfns = c01.fmt_rules(P, Remap(R, {}))
     c01.who_may(P, Remap(R, {'C01.WMC.1': 'C03.WMC.2'}, keys=('bulk', 'clears:')), V, softfns)
+    # the timed-out bit that voids the soft holds is the request's own (the gate's formula, shared with C02)
+    from . import c02
+    c02.gate_guard(P, Remap(R, {'C02.GRD.1': 'C03.GRD.5'}))
+    # a reply whose serial is compared in a narrower type is dropped once the counter outgrows it
+    c04.validated_return(P, Remap(R, {'C04.GRD.1': 'C03.GRD.4'}, keys=('width:',)), r, sepch, idv, serv)
     # a retired service slot stays while a client still waits for its reply (the reply is what ends the wait)
     c07.storage_audit(P, Remap(R, {'C07.WMC.1': 'C03.WMC.2'}, keys=('slot-release',)))
     return EXPLANATION, ASSUMPTIONS
